@@ -296,6 +296,13 @@ pub fn run(rep: &mut Report) {
         el.dedup();
         sweep(rep, &format!("c17.views[{}]", scale_name(ts)), el.len() as u64, |i, out| j_views(ts, el[i as usize], &leap, out));
     }
+    // interior scan (round 8): evenly spread, unremarkable counts within +-100 centuries x 9 scales through every view
+    {
+        let nsc: u64 = if deep { 4_000_000 } else { 300_000 };
+        rep.bound("interior_scan_points", nsc);
+        let lp = &leap;
+        sweep(rep, "c17.scan_views", 9 * nsc, |i, out| j_views(SCALES[(i % 9) as usize], if (i / 9) % 2 == 0 { lattice::scan_point(i / 18, 0, -100 * NPC, 100 * NPC) } else { lattice::scan_magnitude(i / 18, 1, 0, 68) }, lp, out));
+    }
     // order independence: the views of six instants (two of them a leap-second interval apart) in four scales, in every order
     {
         let oi: [i128; 6] = [3_697_315_237 * NS_S, 3_692_217_610 * NS_S, 0, -86_400 * NS_S * 7305 - 5, 86_400 * NS_S * 7305 + 5, 2_000_000_000 * NS_S];
